@@ -1,5 +1,5 @@
 (* Properties_C06.v — C06: saving is deterministic and idempotent. *)
-From ElfioV Require Import Bytes Mem Stream SectionData Strings Elfio Table Loader Layout Writer Layout_proofs Segment_proofs.
+From ElfioV Require Import Bytes Mem Stream SectionData Strings Elfio Table Loader Layout Writer Layout_proofs Segment_proofs Oneseg_proofs Oneseg_again.
 Local Open Scope N_scope.
 
 (* save() is a function of the object and the stream: the model has no hidden
@@ -52,6 +52,43 @@ Theorem C06_segment_second_pass_is_identity :
     exists gen'', layout_one_segment h g' secs' gen pos = Ok (g', secs', gen'', pos', true).
 Proof. exact layout_one_segment_again. Qed.
 Print Assumptions C06_segment_second_pass_is_identity.
+
+(* ... and the whole layout step for an object with ONE such segment plus any sections outside it (the class of
+   C04_layout_with_one_segment): the second save() starts from the object the first one left - header with the
+   table offsets, segment with its offset and sizes, sections with their offsets and addresses - and re-derives
+   exactly that object, so it plans exactly the same writes *)
+Theorem C06_second_layout_is_identity_one_segment :
+  forall el h0 g bound ms,
+    let idxs := g_sections g in
+    let align := if 0 <? p_align g then p_align g else 1 in
+    let secs := el_secs el in
+    let pos0 := e_ehsize h0 + e_phentsize h0 in
+    el_hdr el = Some h0 -> el_segs el = [g] -> lenN secs < 2 ^ 16 ->
+    lenN idxs < 2 ^ 16 -> idxs <> [] -> g_offset_set g = false -> p_type g <> PT_PHDR -> NoDup idxs ->
+    Forall2 (fun i s => nth_optN secs i = Some s) idxs ms ->
+    Forall auto_member ms -> Forall (fun s => sh_addralign s <= p_align g) ms -> Forall (fun s => sh_size s <> 0) ms ->
+    bound <= 2 ^ 63 -> Forall (fun s => bound <= 2 ^ xw (s_cls s)) secs -> bound <= 2 ^ xw (g_cls g) ->
+    p_align g < 2 ^ 63 -> 0 < pos0 ->
+    p_vaddr g + pos0 + align + mbudget ms + budget secs + 16 < bound ->
+    exists el', layout el = Ok (el', true) /\ layout el' = Ok (el', true).
+Proof. exact layout_oneseg_twice. Qed.
+Print Assumptions C06_second_layout_is_identity_one_segment.
+
+(* non-vacuity: ELF32, a PT_LOAD segment at 0x8048004 (align 0x1000) holding two program sections, a free section behind *)
+Definition ex1_ms (i al sz : N) : section :=
+  with_index (with_flags (with_size (with_addralign (with_type (new_section C32) 1) al) sz) 2) i.
+Definition ex1_seg : segment :=
+  seg_add_section_index (seg_add_section_index (seg_set (seg_set (seg_set (new_segment C32) GType 1) GVaddr 134512644) GAlign 4096) 1 16) 2 4.
+Example C06_one_segment_example :
+  let fs (i : N) := with_index (with_size (with_addralign (with_type (new_section C32) 1) 1) 7) i in
+  let el := with_segs (with_secs (with_hdr (empty_elfio false) (Some (new_header C32 LSB)))
+                                 [ex1_ms 0 0 0; ex1_ms 1 16 5; ex1_ms 2 4 3; fs 3]) [ex1_seg] in
+  exists el', layout el = Ok (el', true) /\ layout el' = Ok (el', true) /\ map sh_offset (el_secs el') = [0; 4112; 4120; 4123] /\
+              Forall auto_member [ex1_ms 1 16 5; ex1_ms 2 4 3].
+Proof.
+  eexists. split; [vm_compute; reflexivity|]. split; [vm_compute; reflexivity|]. split; [vm_compute; reflexivity|].
+  repeat constructor; vm_compute; discriminate.
+Qed.
 
 Definition mk (i ty al sz : N) : section :=
   with_index (with_size (with_addralign (with_type (new_section C64) ty) al) sz) i.
